@@ -61,6 +61,32 @@ pub fn days_from_civil(y: i32, m: u8, d: u8) -> i64 {
 }
 
 impl Ts {
+    /// The instant `utc` (nanoseconds since the epoch) as a wall clock in the offset `off`;
+    /// found by search over the boring forward function (no second calendar to get wrong).
+    pub fn from_utc_nanos(utc: i128, off: i32) -> Option<Ts> {
+        let ns = utc.rem_euclid(1_000_000_000) as u32;
+        let local = (utc - ns as i128) / 1_000_000_000 + off as i128; // seconds since epoch, local wall clock
+        let days = local.div_euclid(86_400) as i64;
+        let sod = local.rem_euclid(86_400) as i64;
+        // year by bracketing, then month and day by the forward function
+        let mut y = 1970 + (days / 366) as i32;
+        while days_from_civil(y + 1, 1, 1) <= days {
+            y += 1;
+        }
+        while days_from_civil(y, 1, 1) > days {
+            y -= 1;
+        }
+        let mut mo = 1u8;
+        while mo < 12 && days_from_civil(y, mo + 1, 1) <= days {
+            mo += 1;
+        }
+        let d = (days - days_from_civil(y, mo, 1) + 1) as u8;
+        if !(1..=9999).contains(&y) {
+            return None;
+        }
+        let t = Ts { y, mo, d, h: (sod / 3600) as u8, mi: (sod % 3600 / 60) as u8, s: (sod % 60) as u8, ns, off };
+        (t.utc_nanos() == utc).then_some(t)
+    }
     /// 0 = Sunday
     fn wday(&self) -> i64 {
         (days_from_civil(self.y, self.mo, self.d) + 4).rem_euclid(7)
@@ -722,6 +748,66 @@ fn format_grid(report: &Report, thorough: bool) {
     report.family(FamilyStat { name, cases: n + pairs, nontrivial: n + pairs, skipped: 0, note: format!("round trips={n}, ordered pairs={pairs} (DateTime and Value comparison vs UTC nanosecond counts)") });
 }
 
+
+/// Pairs that are *close*: the same second with different sub-seconds, one second apart, the same
+/// instant in two offsets, across midnight / month / year in one of the offsets.  Chronology must
+/// hold through `DateTime`, through `Value`, and through `{% if a OP b %}` with real date-time
+/// values as data.  (The grid pairs above are mostly far apart.)
+fn near_pairs(report: &Report) {
+    let parser = cfgs::parser(Config::Stdlib);
+    let tmpl = parser.parse("{% if a == b %}={% endif %}{% if a < b %}<{% endif %}{% if a > b %}>{% endif %}{% if a <= b %}L{% endif %}{% if a >= b %}G{% endif %}{% if a != b %}N{% endif %}").expect("C17 template parses");
+    let subs: [u32; 8] = [0, 1, 1_000, 5_000_000, 499_999_999, 500_000_000, 666_777_888, 999_999_999];
+    let offs: [i32; 4] = [0, 5 * 3600 + 1800, -(3 * 3600 + 1800), 14 * 3600];
+    let bases = [(2020, 2, 29, 23, 59, 59), (1999, 12, 31, 23, 59, 58), (2021, 1, 1, 0, 0, 0), (1970, 1, 1, 12, 0, 1), (2038, 1, 19, 3, 14, 7)];
+    let mut pts: Vec<Ts> = Vec::new();
+    for (y, mo, d, h, mi, sec) in bases {
+        for ds in 0..2u8 {
+            for ns in subs {
+                for off in offs {
+                    // the same UTC instant family expressed in `off`: shift the wall clock by the offset
+                    let base = Ts { y, mo, d, h, mi, s: sec, ns, off: 0 };
+                    let utc = base.utc_nanos() + ds as i128 * 1_000_000_000;
+                    if let Some(t) = Ts::from_utc_nanos(utc, off) {
+                        pts.push(t);
+                    }
+                }
+            }
+        }
+    }
+    let dts: Vec<Option<DateTime>> = pts.iter().map(make).collect();
+    let idx: Vec<usize> = (0..pts.len()).filter(|i| dts[*i].is_some()).collect();
+    let per = 2 * subs.len() * offs.len();
+    let mut n = 0u64;
+    for block in idx.chunks(per) {
+        for &a in block {
+            for &b in block {
+                n += 1;
+                report.eval();
+                let (da, db) = (dts[a].as_ref().unwrap(), dts[b].as_ref().unwrap());
+                let (na, nb) = (pts[a].utc_nanos(), pts[b].utc_nanos());
+                let (va, vb) = (liquid_core::Value::scalar(*da), liquid_core::Value::scalar(*db));
+                let api_ok = (da == db) == (na == nb) && (da < db) == (na < nb) && (da > db) == (na > nb) && (va == vb) == (na == nb) && (va < vb) == (na < nb) && (va > vb) == (na > nb) && (va <= vb) == (na <= nb) && (va >= vb) == (na >= nb);
+                let mut g = liquid::Object::new();
+                g.insert("a".into(), va.clone());
+                g.insert("b".into(), vb.clone());
+                let want = format!("{}{}{}{}{}{}", if na == nb { "=" } else { "" }, if na < nb { "<" } else { "" }, if na > nb { ">" } else { "" }, if na <= nb { "L" } else { "" }, if na >= nb { "G" } else { "" }, if na != nb { "N" } else { "" });
+                let got = cfgs::render_guarded(&tmpl, &g);
+                let tmpl_ok = matches!(&got, Ok(Ok(s)) if *s == want);
+                if !api_ok || !tmpl_ok {
+                    report.violation(
+                        if api_ok { "C17|ordering|template-not-chronological|near" } else { "C17|ordering|not-chronological|near" },
+                        n,
+                        json!({"kind":"date-compare","a":pts[a].display(),"b":pts[b].display()}),
+                        format!("{} vs {}: utc nanos {na} vs {nb}; template says {got:?}, expected {want:?}", pts[a].display(), pts[b].display()),
+                    );
+                }
+            }
+        }
+    }
+    report.nontrivial.fetch_add(n, Ordering::Relaxed);
+    report.family(FamilyStat { name: "ordering of near pairs".into(), cases: n, nontrivial: n, skipped: 0, note: format!("{} timestamps: 5 base instants (incl. 23:59:59 on 29 Feb / 31 Dec, 00:00:00 on 1 Jan) x +0/+1 s x 8 sub-second values x 4 offsets; all ordered pairs within one base; DateTime, Value and template operators vs UTC nanoseconds", idx.len()) });
+}
+
 fn parse_syntaxes(report: &Report, thorough: bool) {
     let grid = grid(thorough);
     let step = (grid.len() / if thorough { 3000 } else { 600 }).max(1);
@@ -862,6 +948,7 @@ pub fn run(tier: Tier) -> i32 {
     report.assume("`#` and flags/width on %z %Z %:z %::z are compared modulo padding and case; negative years are outside the grid; %Z prints the numeric offset with a colon (the crate's documented deviation); now/today excluded");
     let t = tier.thorough();
     format_grid(&report, t);
+    near_pairs(&report);
     parse_syntaxes(&report, t);
     filter_binding(&report);
     report.finish()
